@@ -52,6 +52,13 @@ CMDS = {
     "req_cyc": "require CycA",
     "loop_err": "for i in [1, 2, 3] do if i == 2 then error 'x'; end",
     "say": "println('hi'); 1",
+    # a definition whose right-hand side fails binds nothing
+    "class_fail": "def class Point do def x = 1; def y = 1 / 0 end",
+    "def_fail": "def v = [1, 1 / 0]",
+    "read_pv": "[do Point catch all 'nop' end, do v catch all 'nov' end]",
+    # string literals of an earlier call are not shared with later calls
+    "str_edit": "def tag = 'abc'; tag[0] = 'X'; tag",
+    "str_def": "def tag = 'abc'; tag",
     "env2_read": ("E2", "[do limit catch all 'nol' end, "
                         "do a catch all 'noa' end, do w catch all 'now' end]"),
     "env2_fail": ("E2", "def w = 3; error 'boom'"),
@@ -233,6 +240,14 @@ class Sessions(e4.Explorer):
             exp = ["rt", "'x'"]
         elif name == "say":
             exp = ["value", "1", {"output": [[who, "hi\n"]]}]
+        elif name in ("class_fail", "def_fail"):
+            exp = ERR
+        elif name == "read_pv":
+            exp = ["value", "['nop', 'nov']"]
+        elif name == "str_edit":
+            exp = ["value", "'Xbc'"]
+        elif name == "str_def":
+            exp = ["value", "'abc'"]
         elif name == "env2_read":
             exp = ["value", "[5, " + (str(s["a"]) if s["a"] is not None
                                       else "'noa'") + ", " +
@@ -333,11 +348,15 @@ def main(tier, seed):
     core_cmds = ["def_a", "inc_a", "read_a", "def_f", "call_f", "partial",
                  "read_bc", "req_good", "bump", "req_broken", "req_cyc",
                  "env_def", "env_read", "req_as", "call_g", "loop_fn", "say",
-                 "env2_read", "env2_fail"]
+                 "env2_read", "env2_fail", "class_fail", "def_fail",
+                 "read_pv", "str_edit", "str_def"]
     two = ["def_a", "inc_a", "read_a", "partial", "read_bc", "req_good",
-           "bump", "req_missing", "env_def", "env_read", "say"]
+           "bump", "req_missing", "env_def", "env_read", "say", "str_edit"]
     if tier == "quick":
-        plan1 = [(ORDER, 3), (["def_a", "read_a", "partial", "call_g",
+        light = ("div0", "syntax", "req_syn", "req_missing", "loop_err",
+                 "read_q", "def_fail", "str_def")
+        plan1 = [(ORDER, 2), ([c for c in ORDER if c not in light], 3),
+                 (["def_a", "read_a", "partial", "call_g",
                                "req_good", "bump", "req_broken",
                                "req_as", "env2_read", "env2_fail"], 4)]
         plan2 = [(two, 3)]
